@@ -38,6 +38,7 @@ def read_keylog_from_file(path):
         logging.error("Keylog file not found")
         exit()
 
-    file = open(path, "r")
+    # key lines are plain ASCII; do not depend on the locale for anything else in the file (comments)
+    file = open(path, "r", encoding="ascii", errors="replace")
 
     return get_keys_from_string(file.read())
